@@ -163,7 +163,12 @@ def run_case(ctx, case):
         elif kind == 'invert':
             steps.append(['invert', i])
             with MC.paused():
-                cond = max(np.linalg.cond(m) for m in out[i].data)
+                if not (np.all(np.isfinite(out[i].data)) and np.all(np.isfinite(inp[i].data))):
+                    continue
+                try:
+                    cond = max(np.linalg.cond(m) for m in out[i].data)
+                except np.linalg.LinAlgError:
+                    continue
             if not np.isfinite(cond) or cond > 1e6:
                 continue
             out[i] = out[i].invert()
